@@ -1735,6 +1735,10 @@ class Exec:
             src = src.base
         if isinstance(src, dict):
             src = list(src.keys())
+        if type(src).__name__ == 'PyClass' and isinstance(getattr(src, 'cls', None), type):
+            import enum as _enum
+            if issubclass(src.cls, _enum.Enum):
+                src = list(src.cls)         # iterating an Enum class yields its members in definition order
         if isinstance(src, (set, frozenset)):
             src = sorted(src, key=repr)
         if isinstance(src, range):
